@@ -90,10 +90,10 @@ type logEntry struct {
 	Kind  int
 	At    time.Duration // virtual time since the start of the execution
 	Run   int
-	Code  int    // event entries: the explorer event; reply entries: the outcome (ro*)
-	Seq   int    // announce number within the execution (announce and reply entries)
-	Event int    // announce: refcodec event numbering
-	Want  int    // announce: numwant
+	Code  int // event entries: the explorer event; reply entries: the outcome (ro*)
+	Seq   int // announce number within the execution (announce and reply entries)
+	Event int // announce: refcodec event numbering
+	Want  int // announce: numwant
 	Left  int64
 	IDOK  bool // announce: info-hash, peer id and port are the torrent's
 	OK    bool // reply: the tracker accepted the announce
@@ -381,14 +381,14 @@ func judge(log []logEntry, preCompleted bool) (vs []dviol, st dstats) {
 		completedN int
 		okInRun    bool
 	}
-	completion := preCompleted     // download finished at some point up to here
-	completionInRun := false       // ... during the current run
-	acceptedEver := false          // the tracker accepted some announce of this execution
-	var positives []time.Duration  // positive interval / min-interval values received so far (execution-wide: weakest demand)
+	completion := preCompleted    // download finished at some point up to here
+	completionInRun := false      // ... during the current run
+	acceptedEver := false         // the tracker accepted some announce of this execution
+	var positives []time.Duration // positive interval / min-interval values received so far (execution-wide: weakest demand)
 	var ri runInfo
-	lastAnn := -1                  // log position of the previous announce of this run
-	eventSince := false            // an explorer event happened since lastAnn
-	replyOKSince := false          // the previous announce got an accepting reply
+	lastAnn := -1         // log position of the previous announce of this run
+	eventSince := false   // an explorer event happened since lastAnn
+	replyOKSince := false // the previous announce got an accepting reply
 	var lastOK *logEntry
 	for p := range log {
 		e := &log[p]
@@ -650,7 +650,9 @@ type dres struct {
 	Samples   []string   `json:"samples"`
 }
 
-const announceBudget = 24
+// an execution is cut after depth+announceSlack announces: every explorer event can cause at most one announce,
+// so only a re-announce loop gets there (and the gap oracle has fired by then; otherwise the run reports a cap)
+const announceSlack = 5
 
 // runJob executes one job serially (worker process, GOMAXPROCS=1: goroutine hand-offs inside a bubble stay on one thread).
 func runJob(t *testing.T, answers []answer, j djob) dres {
@@ -658,17 +660,21 @@ func runJob(t *testing.T, answers []answer, j djob) dres {
 	var mu sync.Mutex
 	seqs := enumSeqs(j.Depth)
 	agg := &aggregator{m: map[string]*aggEntry{}}
-	// one goroutine per configuration: while one bubble is idle another one runs (the process has a single P)
+	// one goroutine per (configuration, first event): while one bubble is idle another one runs (the process has a single P)
 	var wg sync.WaitGroup
-	for ci, cfg := range j.Cfgs {
+	block := len(seqs) / nEvents // sequences with the same first event are contiguous
+	for w := 0; w < len(j.Cfgs)*nEvents; w++ {
+		ci, first := w/nEvents, w%nEvents
+		cfg := j.Cfgs[ci]
 		wg.Add(1)
-		go func(ci int, cfg dcfg) {
+		go func(ci int, cfg dcfg, first int) {
 			defer wg.Done()
 			var l dres
 			cfgIdx := j.CfgIdx0 + ci
 			hashes := map[uint64]struct{}{}
-			for si, seq := range seqs {
-				res := execute(t, answers, cfg, seq, announceBudget)
+			for si := first * block; si < (first+1)*block; si++ {
+				seq := seqs[si]
+				res := execute(t, answers, cfg, seq, j.Depth+announceSlack)
 				if !res.member {
 					l.NotMember++
 					continue
@@ -706,7 +712,7 @@ func runJob(t *testing.T, answers []answer, j djob) dres {
 						return v.msg + "\n" + d, rp
 					})
 				}
-				if cfgIdx%251 == 0 && si == len(seqs)/3 {
+				if cfgIdx%97 == 0 && first == evComplete && l.Executed == 100 {
 					d, _ := describe(answers, cfg, seq, res.log, len(res.log)-1)
 					l.Samples = append(l.Samples, d)
 				}
@@ -723,7 +729,7 @@ func runJob(t *testing.T, answers []answer, j djob) dres {
 			}
 			r.Samples = append(r.Samples, l.Samples...)
 			mu.Unlock()
-		}(ci, cfg)
+		}(ci, cfg, first)
 	}
 	wg.Wait()
 	for k, e := range agg.m {
@@ -734,7 +740,7 @@ func runJob(t *testing.T, answers []answer, j djob) dres {
 	return r
 }
 
-func enumCfgs(nAnswers, scriptLen int) []dcfg {
+func enumCfgs(nAnswers, scriptLen int, twoPhaseSlow bool) []dcfg {
 	var cfgs []dcfg
 	for l := 1; l <= scriptLen; l++ {
 		idx := make([]int, l)
@@ -743,8 +749,8 @@ func enumCfgs(nAnswers, scriptLen int) []dcfg {
 			if i == l {
 				for _, lat := range []time.Duration{0, 10 * time.Second} {
 					for _, pre := range []bool{false, true} {
-						if pre && l > 1 {
-							continue // two-phase scripts are run on torrents that start incomplete only
+						if l > 1 && (pre || (lat > 0 && !twoPhaseSlow)) {
+							continue // two-phase scripts: torrents that start incomplete only; with slow replies only in the thorough tier
 						}
 						cfgs = append(cfgs, dcfg{Script: append([]int{}, idx...), Latency: lat, PreCompleted: pre})
 					}
@@ -784,22 +790,27 @@ func TestC15Discipline(t *testing.T) {
 	}
 	rep.Rule = fmt.Sprintf("real PeriodicalAnnouncer in a synctest bubble (virtual time) against a scripted tracker.Tracker that logs every AnnounceRequest with its virtual timestamp. "+
 		"Tracker script: announce n gets script[min(n,len-1)], script entries from the %d answers {ok(interval i, min-interval m) for i,m in {absent,-1s,1s,30min}; failure-reason with retry; plain error; never (i/o timeout after 2 virtual minutes)}; "+
-		"reply latency in {0, 10s}; torrent complete at start in {no, yes} (yes only with one-phase scripts). Explorer alphabet: {sleep to the next tracker occurrence (announce arrival or reply delivery; cap 3h), download completes (closes the completed channel; enabled once), NeedMorePeers(true), NeedMorePeers(false), Close (+ start a new run on the same tracker)}. "+
+		"reply latency in {0, 10s}; torrent complete at start in {no, yes} (two-phase scripts: incomplete torrents only, and slow replies only in the thorough tier). Explorer alphabet: {sleep to the next tracker occurrence (announce arrival or reply delivery; cap 3h), download completes (closes the completed channel; enabled once), NeedMorePeers(true), NeedMorePeers(false), Close (+ start a new run on the same tracker)}. "+
 		"ALL event sequences of length exactly d are executed for every configuration, which covers every sequence of length <= d because all oracles are prefix-closed (safety) and every run is deterministic; {d, script length<=L} per tier: %v. "+
 		"Oracles on each log: first announce of every run is 'started'; 'completed' at most once per run and only after completion during that run; two consecutive announces of a run with no completion / need-more-peers event in between and an accepting reply to the first are at least min(positive interval/min-interval values received so far, client minimum 1m) apart; identity and left-counter of every announce; HasAnnounced only after an accepting reply. "+
 		"Plus StopAnnouncer: every vector of tracker behaviours {ok, failure, error, never, ok after 1s, ok after 10s} for 0..n trackers x {no Close, Close at 0, Close at 2s}, timeout 5s. "+
-		"states = distinct = number of distinct logs (events, announces, replies with their virtual timestamps) per configuration, summed over configurations.", len(answers), plans)
+		"states = distinct = number of distinct logs (events, announces, replies with their virtual timestamps) per (configuration, first event), summed; plus the StopAnnouncer cases.", len(answers), plans)
 	rep.Assumptions = []string{
 		"tracker scripts have at most two phases (first answer, then a second answer forever); thorough depth 7 uses single-phase scripts",
 		"the random factor of the error-retry back-off is set to 0 through an in-package hook (retry times are not judged; this only makes timestamps reproducible)",
 		"scripted trackers honour context cancellation, as both real transports do",
-		fmt.Sprintf("an execution is cut after %d announces (only reachable through a re-announce loop, which the gap oracle has reported by then)", announceBudget),
+		fmt.Sprintf("an execution is cut after depth+%d announces (only reachable through a re-announce loop, which the gap oracle has reported by then; anything else is reported as a cap)", announceSlack),
 	}
 	var jobs []core.Job
 	cfgIdx := 0
-	const cfgsPerJob = 16
 	for _, pl := range plans {
-		cfgs := enumCfgs(len(answers), pl.ScriptLen)
+		cfgs := enumCfgs(len(answers), pl.ScriptLen, core.Thorough())
+		cfgsPerJob := 8 // ~25k executions per job at depth 5
+		if pl.Depth == 6 {
+			cfgsPerJob = 4
+		} else if pl.Depth >= 7 {
+			cfgsPerJob = 1
+		}
 		for i := 0; i < len(cfgs); i += cfgsPerJob {
 			e := i + cfgsPerJob
 			if e > len(cfgs) {
@@ -870,7 +881,7 @@ func TestC15Discipline(t *testing.T) {
 	rep.Extra["accepting_replies"] = tot.Stats[5]
 	rep.Extra["executions_cut_by_announce_budget"] = tot.Over
 	if tot.OverNV > 0 {
-		rep.Cap(fmt.Sprintf("%d executions hit the %d-announce budget without any oracle having fired", tot.OverNV, announceBudget))
+		rep.Cap(fmt.Sprintf("%d executions hit the announce budget (depth+%d) without any oracle having fired", tot.OverNV, announceSlack))
 	}
 	if !crashed && (tot.Stats[2] == 0 || tot.Stats[1] == 0 || tot.Stats[5] == 0 || tot.Stats[4] <= tot.Executed) {
 		core.HarnessError("vacuous: %+v", tot)
@@ -1070,6 +1081,8 @@ func stopAnnouncerPart(t *testing.T, rep *core.Report) {
 	}
 	rep.Evaluations += nRuns
 	rep.TracesImpl += nRuns
+	rep.Distinct += nRuns
+	rep.States += nRuns
 	rep.Extra["stop_runs"] = nRuns
 	rep.Extra["stop_announces_checked"] = nStopped
 	rep.Extra["stop_runs_that_ended_exactly_at_the_timeout"] = nAtTimeout
